@@ -12,12 +12,28 @@ use rand::Rng;
 use std::collections::HashMap;
 use std::io::Write;
 
+thread_local! {
+    /// capacity of the writers built by `with_writer` (0 = the real constructor with its 16 KiB buffer)
+    static WRITER_CAP: std::cell::Cell<usize> = const { std::cell::Cell::new(0) };
+}
+/// Small buffers make every fill level of the buffer occur while a document is written (exactly MAX_LEN bytes free,
+/// one byte free, ...), which with 16 KiB would need megabytes of output.
+pub fn set_writer_capacity(cap: usize) {
+    WRITER_CAP.with(|c| c.set(cap));
+}
+
 fn with_writer(f: impl FnOnce(&mut DeferredWriter)) -> Vec<u8> {
     let mut out = vec![];
     {
-        let mut w = DeferredWriter::from_write(&mut out);
-        f(&mut w);
-        w.flush().unwrap();
+        let cap = WRITER_CAP.with(|c| c.get());
+        let mut w = if cap == 0 { DeferredWriter::from_write(&mut out) } else { DeferredWriter::verif_with_capacity(&mut out, cap) };
+        // a panic inside a writer is data: what reached the sink so far is then compared with the rendering
+        let r = crate::catch(|| f(&mut w));
+        if r.is_ok() {
+            w.flush().unwrap();
+        } else {
+            std::mem::forget(w);
+        }
     }
     out
 }
@@ -203,14 +219,31 @@ macro_rules! aiger_values {
             if let Some(c) = &comment { endpart.push(json!(["comment", bytes_json(c.as_bytes())])); }
             if $binary {
                 let bytes = {
-                    let mut out = vec![];
-                    {
-                        let w = DeferredWriter::from_write(&mut out);
-                        let mut bw = flussab_aiger::binary::Writer::<$L>::new(w);
-                        bw.write_ordered_aig(&ordered);
+                    let mut sink = crate::sink::Sink::new(7);
+                    sink.log = false;
+                    let state = sink.state();
+                    let cap = WRITER_CAP.with(|c| c.get());
+                    let w = if cap == 0 { DeferredWriter::from_write(sink) } else { DeferredWriter::verif_with_capacity(sink, cap) };
+                    let mut bw = flussab_aiger::binary::Writer::<$L>::new(w);
+                    // a Writer may be used for several circuits in a row: every circuit is written as if it were the first
+                    let mut skip = 0usize;
+                    if rng.gen_range(0..3) == 0 {
+                        let warm = OrderedAig::<$L> {
+                            max_var_index: 4, input_count: 1,
+                            latches: vec![OrderedLatch { next_state: <$L>::from_code(2), initialization: None },
+                                          OrderedLatch { next_state: <$L>::from_code(5), initialization: None }],
+                            outputs: vec![<$L>::from_code(8)],
+                            and_gates: vec![OrderedAndGate { inputs: [<$L>::from_code(6), <$L>::from_code(3)] }],
+                            ..Default::default()
+                        };
+                        bw.write_ordered_aig(&warm);
                         bw.writer.flush().unwrap();
+                        skip = state.borrow().received.len();
                     }
-                    out
+                    let r = crate::catch(std::panic::AssertUnwindSafe(|| { bw.write_ordered_aig(&ordered); }));
+                    if r.is_ok() { bw.writer.flush().unwrap(); } else { std::mem::forget(bw); }
+                    let all = state.borrow().received.clone();
+                    all[skip..].to_vec()
                 };
                 let mut expect = vec![hdr];
                 expect.extend((0..l).map(|k| json!(["latch", num(nexts[k].code()), init_json(inits[k])])));
@@ -270,9 +303,12 @@ fn btor2_rt(rng: &mut StdRng) -> (Vec<u8>, serde_json::Value) {
     for _ in 0..n {
         nodebuf.push((0..rng.gen_range(1..4)).map(|_| id(rng)).collect());
     }
+    let big: String = format!("{}{}", ["", "x"][rng.gen_range(0..2)], "\u{e9}".repeat(8180 + rng.gen_range(0..12)));
+    let long_doc = rng.gen_range(0..12) == 0;
     let bytes = with_writer(|w| {
         for k in 0..n {
-            if rng.gen_range(0..7) == 0 {
+            let long_line = long_doc && k == 0;
+            if !long_line && rng.gen_range(0..7) == 0 {
                 let c = cmts[rng.gen_range(0..cmts.len())];
                 let line = Line::Comment(c.into());
                 line.write_into(w);
@@ -305,8 +341,16 @@ fn btor2_rt(rng: &mut StdRng) -> (Vec<u8>, serde_json::Value) {
             };
             let symbol = if rng.gen_range(0..3) == 0 { Some(syms[rng.gen_range(0..syms.len())]) } else { None };
             let comment = if rng.gen_range(0..3) == 0 { Some(cmts[rng.gen_range(0..cmts.len())]) } else { None };
+            // rarely a comment longer than the writer's 16 KiB buffer, with a two-byte character across the boundary
+            let comment: Option<&str> = if long_line { Some(big.as_str()) } else { comment };
             let line = Line::Node(Node { id: id(rng), variant, symbol: symbol.map(|s| s.into()), comment: comment.map(|s| s.into()) });
-            line.write_into(w);
+            // the two ways of writing a line: write_into, and Display (identical for text that is valid UTF-8)
+            if rng.gen_range(0..3) == 0 {
+                use std::io::Write;
+                write!(w, "{}\n", line).unwrap();
+            } else {
+                line.write_into(w);
+            }
             expect.push(parsers::btor_line_json(&line));
         }
     });
@@ -395,6 +439,7 @@ pub fn run(opts: &HashMap<String, String>) -> i32 {
         let lits = gen::lit_types(parser);
         let lit = lits[rng.gen_range(0..lits.len())];
         let dimacs = matches!(parser, "cnf" | "wcnf" | "gcnf");
+        set_writer_capacity(if rng.gen_bool(0.5) { 0 } else { [20usize, 21, 22, 24, 27, 32, 40, 41, 47, 64, 100][rng.gen_range(0..11)] });
         // (i) value -> writer -> parser
         let made: Option<(Vec<u8>, Value, &str)> = match parser {
             "cnf" | "wcnf" | "gcnf" => { let (b, e) = dimacs_rt(parser, lit, &mut rng); Some((b, e, parser)) }
